@@ -19,6 +19,13 @@ from .exdrv import fstr
 def make_rows(scn):
     """rows (list of dict) of an input trace, possibly with an extra column and awkward cells"""
     cols = HEADER.split(",") + (["note"] if scn.get("extra_col") else [])
+    order = scn.get("col_order")
+    if order == "arrival_last":
+        cols = [c for c in cols if c != "arrival_seconds"] + ["arrival_seconds"]
+    elif order == "extra_first" and scn.get("extra_col"):
+        cols = ["note"] + [c for c in cols if c != "note"]
+    elif order == "reversed":
+        cols = cols[::-1]       # columns are found by their header names, in any order
     rows = []
     pid_of = []
     for j in range(len(scn["arrivals"])):
@@ -496,7 +503,7 @@ def gen_scn(r, family, tier):
         arrivals = sorted(arrivals + extra, key=frac)
     scn = {"kind": family, "tps": tps, "arrivals": arrivals, "nops": [r.choice([1, 1, 2, 4]) for _ in arrivals],
            "extra_col": r.random() < 0.4, "id_prefix": r.choice(["p", "pipe-", "q"]), "via_main": r.random() < 0.3,
-           "sci": sci}
+           "sci": sci, "col_order": r.choice([None, None, None, None, "arrival_last", "extra_first", "reversed"])}
     if r.random() < 0.2 and len(arrivals) >= 3:
         # a job name that comes back later in the trace (not adjacent): a pipeline of its own
         recur = {}
